@@ -3,13 +3,13 @@ reader for check_vname's reserved vocabulary, f-string key templates)."""
 from __future__ import annotations
 
 import ast
-from typing import Dict, Iterable, List, Optional, Sequence, Set, Tuple
+from typing import Dict, Iterable, List, Optional, Set, Tuple
 
 from engine import AnalysisError
 from engine.cfg import CFG
 from engine.dataflow import target_names, assigned_value
-from engine.srcmodel import walk_shallow, norm, parent
-from engine.util import call_name, contains, fstring_template
+from engine.srcmodel import walk_shallow, parent
+from engine.util import contains, fstring_template
 
 OPERATOR_REL = "pyrates/frontend/template/operator.py"
 
@@ -138,12 +138,20 @@ def _table_text(e: ast.AST) -> str:
 # ------------------------------------------------------------------------------------------------
 
 class Reserved:
-    def __init__(self, f, names: Set[str], parts: List[str], names_stmt, parts_stmt):
+    """check_vname's vocabulary.  `names` / `parts` are *effective* only when the corresponding test raises and check_vname
+    is applied to every declared variable name; otherwise they are empty (the raw tables stay in raw_names / raw_parts)."""
+
+    def __init__(self, f, raw_names, raw_parts, names_stmt, parts_stmt, names_test, parts_test, names_raise, parts_raise,
+                 applied_in, applied_call):
         self.f = f
-        self.names = names
-        self.parts = parts
-        self.names_stmt = names_stmt
-        self.parts_stmt = parts_stmt
+        self.raw_names, self.raw_parts = set(raw_names), list(raw_parts)
+        self.names_stmt, self.parts_stmt = names_stmt, parts_stmt
+        self.names_test, self.parts_test = names_test, parts_test
+        self.names_raise, self.parts_raise = names_raise, parts_raise
+        self.applied_in, self.applied_call = applied_in, applied_call
+        ok = applied_call is not None
+        self.names: Set[str] = set(raw_names) if (names_raise and ok) else set()
+        self.parts: List[str] = list(raw_parts) if (parts_raise and ok) else []
 
     def why(self, literal: str) -> Optional[str]:
         """Reason why no user variable can carry a name that contains `literal` as a contiguous piece (None if it can)."""
@@ -159,8 +167,9 @@ class Reserved:
 
 
 def read_reserved(ctx, rid: str) -> Reserved:
-    """Read the reserved names / name parts from check_vname *by structure*: a list L with `if v in L: raise` and a list P
-    with `for d in P: if d in v: raise` where v is the function's first parameter."""
+    """Read the reserved names / name parts from check_vname *by structure*: a list L with `if v in L: <raise>` and a list P
+    with `for d in P: if d in v: <raise>` where v is the function's first parameter; and find the call that applies
+    check_vname to every declared variable name (OperatorTemplate.apply)."""
     f = ctx.repo.get_func(OPERATOR_REL, "check_vname")
     if not f.params:
         raise AnalysisError(f"{rid}: check_vname has no parameter")
@@ -176,19 +185,22 @@ def read_reserved(ctx, rid: str) -> Reserved:
     def raises(body) -> bool:
         return bool(body) and isinstance(body[-1], ast.Raise)
 
-    names, parts, names_stmt, parts_stmt = None, None, None, None
+    names = parts = names_stmt = parts_stmt = names_test = parts_test = None
+    names_raise = parts_raise = False
     for st in f.node.body:
         if isinstance(st, ast.If) and isinstance(st.test, ast.Compare) and len(st.test.ops) == 1 \
                 and isinstance(st.test.ops[0], ast.In) and isinstance(st.test.left, ast.Name) and st.test.left.id == v \
-                and isinstance(st.test.comparators[0], ast.Name) and st.test.comparators[0].id in lists and raises(st.body):
-            names, names_stmt = set(lists[st.test.comparators[0].id][0]), lists[st.test.comparators[0].id][1]
+                and isinstance(st.test.comparators[0], ast.Name) and st.test.comparators[0].id in lists:
+            names, names_stmt = lists[st.test.comparators[0].id]
+            names_test, names_raise = st, raises(st.body)
         if isinstance(st, ast.For) and isinstance(st.iter, ast.Name) and st.iter.id in lists and isinstance(st.target, ast.Name):
             d = st.target.id
             for sub in st.body:
                 if isinstance(sub, ast.If) and isinstance(sub.test, ast.Compare) and len(sub.test.ops) == 1 \
                         and isinstance(sub.test.ops[0], ast.In) and isinstance(sub.test.left, ast.Name) and sub.test.left.id == d \
-                        and isinstance(sub.test.comparators[0], ast.Name) and sub.test.comparators[0].id == v and raises(sub.body):
-                    parts, parts_stmt = list(lists[st.iter.id][0]), lists[st.iter.id][1]
+                        and isinstance(sub.test.comparators[0], ast.Name) and sub.test.comparators[0].id == v:
+                    parts, parts_stmt = lists[st.iter.id]
+                    parts_test, parts_raise = sub, raises(sub.body)
     if names is None or parts is None:
         raise AnalysisError(f"{rid}: check_vname no longer has the recognised form `if v in <names>: raise` / "
                             f"`for d in <parts>: if d in v: raise`")
@@ -196,22 +208,26 @@ def read_reserved(ctx, rid: str) -> Reserved:
     for n in walk_shallow(f.node):
         if isinstance(n, ast.Name) and n.id == v and isinstance(n.ctx, ast.Store):
             raise AnalysisError(f"{rid}: check_vname re-binds its name parameter `{v}`")
-    return Reserved(f, names, parts, names_stmt, parts_stmt)
+    applied_in, applied_call = check_vname_is_applied(ctx, rid)
+    return Reserved(f, names, parts, names_stmt, parts_stmt, names_test, parts_test, names_raise, parts_raise,
+                    applied_in, applied_call)
 
 
-def check_vname_is_applied(ctx, rid: str) -> Tuple[object, ast.Call]:
+def check_vname_is_applied(ctx, rid: str):
     """check_vname is called on every declared variable name of an operator template: a call inside a loop over the
-    template's variables in OperatorTemplate.apply whose first argument is the loop's name target."""
+    template's variables in OperatorTemplate.apply whose first argument is the loop's name target.
+    Returns (function, call) — call is None when no such call exists."""
     f = ctx.repo.get_func(OPERATOR_REL, "OperatorTemplate.apply")
     target = ctx.repo.get_func(OPERATOR_REL, "check_vname")
+    var_loops = [l for l in walk_shallow(f.node) if isinstance(l, ast.For) and "variables" in ast.unparse(l.iter)]
+    if not var_loops:
+        raise AnalysisError(f"{rid}: OperatorTemplate.apply no longer loops over the template's variables (unrecognised form)")
     for call, targets, _how in ctx.cg.calls.get(f, ()):
         if target in targets and call.args and isinstance(call.args[0], ast.Name):
             for a in _ancestors(call):
-                if isinstance(a, ast.For) and call.args[0].id in target_names(a.target) \
-                        and "variables" in ast.unparse(a.iter):
+                if a in var_loops and call.args[0].id in target_names(a.target):
                     return f, call
-    raise AnalysisError(f"{rid}: OperatorTemplate.apply no longer passes every declared variable name through check_vname "
-                        f"(reservation of generated names would be void)")
+    return f, None
 
 
 def _ancestors(n):
